@@ -60,7 +60,7 @@ GROUP = {"backoff_delay": "Recon", "should_attempt_reconnect": "Recon", "record_
          "set_conn_timeout_ms": "Cfg",
          "reg_handle_reg3": "Reg", "reg_handle_reg_err": "Reg", "reg_handle_reg_ngp": "Reg",
          "reg_clear_pending_if_timed_out": "Reg", "reg_build_reg1_for": "Reg", "reg_reg1_if_ngp_immediate": "Reg",
-         "reg_handle_reg2": "Reg",
+         "reg_handle_reg2": "Reg", "reg_driver_pending_sends": "Reg",
          "trk_insert": "Trk", "trk_get": "Trk",
          "crit_extend_to": "Crit", "crit_is_critical_now": "Crit",
          "cc_loss_permille": "Cc", "cc_update_backoff_efficacy": "Cc", "cc_observe_traffic": "Cc",
@@ -121,6 +121,7 @@ LEAVES = [
     ("reg_build_reg1_for", CORE + "registration/mod.rs", "SrtlaRegistrationManager", "build_reg1_for"),
     ("reg_reg1_if_ngp_immediate", CORE + "registration/mod.rs", "SrtlaRegistrationManager", "reg1_if_ngp_immediate"),
     ("reg_handle_reg2", CORE + "registration/mod.rs", "SrtlaRegistrationManager", "handle_reg2"),
+    ("reg_driver_pending_sends", CORE + "registration/mod.rs", "SrtlaRegistrationManager", "reg_driver_pending_sends"),
     # sequence tracker ring (C05): a function of the one element that is read / written (<local>_slot says which)
     ("trk_insert", "src/sender/sequence.rs", "SequenceTracker", "insert"),
     ("trk_get", "src/sender/sequence.rs", "SequenceTracker", "get"),
@@ -159,6 +160,7 @@ ATOMIC = {"AtomicU64": "u64", "AtomicU32": "u32", "AtomicI32": "i32", "AtomicBoo
 INT_TYPES = {"u8", "u16", "u32", "u64", "usize", "i32", "i64"}
 # field-less enums of the sources read (name -> [variants]); a value is a constructor of a generated Inductive
 ENUMS = {}
+DEFAULT_DERIVED = set()   # structs declared with #[derive(.. Default ..)]
 # byte arrays / packets are not translated here (their bytes are property C15's subject, tools/gen_wire.py):
 # a value of such a type is `tt : unit`, so `Option<[u8; N]>` keeps exactly "was a packet produced"
 OPAQUE_FNS = {"create_reg1_packet": "bytes", "create_reg2_packet": "bytes"}
@@ -575,6 +577,14 @@ class P:
             return ("string",)
         if v == "(":
             e = self.expr()
+            if self.peek()[1] == ",":
+                items = [e]
+                while self.eat(","):
+                    if self.peek()[1] == ")":
+                        break
+                    items.append(self.expr())
+                self.expect(")")
+                return ("tuple", items)
             self.expect(")")
             return ("paren", e)
         if v == "if":
@@ -615,6 +625,7 @@ class Ctx:
         self.used_enums = set()   # enums whose Inductive the group file must declare
         self.pseudo = {}          # pseudo outputs (opaque calls, byte-array copies): name -> initial value
         self.slot_keys = {}       # <slot local>_<field> -> canonical sort key
+        self.local_structs = {}   # local built by `T::default()` -> T
         self.slot_base = {}       # slot local -> index path of the array field
 
     def field_type(self, path):
@@ -907,6 +918,10 @@ def ev(e, env):
         if n in env.v:
             if env.v[n][1] == "slice":
                 raise TErr("slice %s used as a value" % n)
+            if (env.v[n][1] or "").startswith("localstruct:"):
+                # a local struct value is the tuple of its fields in declaration order
+                T = env.v[n][1].split(":")[1]
+                return "(" + ", ".join(env.v["%s_%s" % (n, f)][0] for f in ctx.structs[T]) + ")", T
             return env.v[n]
         base = n.split("::")[-1]
         if n.endswith("::MAX") or n.endswith("::MIN"):
@@ -935,6 +950,11 @@ def ev(e, env):
                 return env.cur(nm)
             env.setcur(nm, (nm, rty))
             return nm, rty
+        if e[1][0] == "var" and (env.v.get(e[1][1], (None, None))[1] or "").startswith("localstruct:"):
+            T = env.v[e[1][1]][1].split(":")[1]
+            if e[2] not in ctx.structs[T]:
+                raise TErr("struct %s has no field %s" % (T, e[2]))
+            return env.v["%s_%s" % (e[1][1], e[2])]
         if slot_of(e[1], env) is not None:
             nm, rty = slot_field(env, slot_of(e[1], env)[0], e[2])
             if env.cur(nm) is not None:
@@ -1174,6 +1194,9 @@ def ev(e, env):
         if "f64" in tys and any(t != "f64" for t in tys):
             raise TErr("conditional expression mixing f64 and %s" % [t for t in tys if t != "f64"][0])
         return r, (tys[0] if tys else None)
+    if k == "tuple":
+        parts = [ev(x, env) for x in e[1]]
+        return "(" + ", ".join(p_[0] for p_ in parts) + ")", "(" + ", ".join(str(p_[1]) for p_ in parts) + ")"
     if k == "rmw":
         _, op, rty, target, arg = e
         nm, _ = ctx.use_field(path_of(target), atomic=True)
@@ -1190,6 +1213,10 @@ def ev(e, env):
 
 
 def lvalue_name(e, env):
+    if e[0] == "field" and e[1][0] == "var" and e[1][1] in env.ctx.local_structs:
+        if e[2] not in env.ctx.structs[env.ctx.local_structs[e[1][1]]]:
+            raise TErr("struct %s has no field %s" % (env.ctx.local_structs[e[1][1]], e[2]))
+        return "%s_%s" % (e[1][1], e[2])
     if e[0] == "field" and slot_of(e[1], env) is not None:
         return slot_field(env, slot_of(e[1], env)[0], e[2])[0]
     if e[0] == "deref":
@@ -1284,6 +1311,18 @@ def effect_lvalue_name(lv, env):
     return lvalue_name(e, env)
 
 
+def default_struct(s, env):
+    """`let [mut] x = T::default();` for a struct T with #[derive(Default)] all of whose fields are Options
+    (so every field starts as None) -> T ; else None"""
+    if s[0] != "let" or s[2][0] != "fcall" or s[2][2] or not s[2][1].endswith("::default"):
+        return None
+    T = s[2][1].split("::")[-2]
+    flds = env.ctx.structs.get(T)
+    if not flds or T not in DEFAULT_DERIVED or not all(t.startswith("Option<") for t in flds.values()):
+        raise TErr("%s::default() (only a #[derive(Default)] struct of Option fields is known)" % T)
+    return T
+
+
 def slot_binding(s, env):
     """`let x = &[mut] self.<field>[i];` with <field> an array of a known struct -> (x, T, field path, index expr)"""
     if s[0] != "let" or s[2][0] != "index" or path_of(s[2][1]) is None:
@@ -1309,7 +1348,9 @@ def bind_slot(env, name, T, path):
 
 def collect_assigned(stmts, env, acc):
     for s in stmts:
-        if slot_binding(s, env) is not None:
+        if default_struct(s, env) is not None:
+            env.ctx.local_structs[s[1]] = default_struct(s, env)
+        elif slot_binding(s, env) is not None:
             name, T, path, _ = slot_binding(s, env)
             bind_slot(env, name, T, path)
             acc.append(name + "_slot")
@@ -1436,6 +1477,14 @@ def run_stmts(stmts, env, outs, has_ret):
     s, rest = stmts[0], stmts[1:]
     k = s[0]
     if k in ("skip",):
+        return run_stmts(rest, env, outs, has_ret)
+    if k == "let" and default_struct(s, env) is not None:
+        T = default_struct(s, env)
+        env.ctx.local_structs[s[1]] = T
+        env.v[s[1]] = (s[1], "localstruct:" + T)
+        for f in env.ctx.structs[T]:
+            env.v["%s_%s" % (s[1], f)] = ("None", "Option<?>")
+            env.ctx.local_names.add("%s_%s" % (s[1], f))
         return run_stmts(rest, env, outs, has_ret)
     if k == "let" and slot_binding(s, env) is not None:
         # which element is accessed is an output (<local>_slot); the element's fields are inputs/outputs
@@ -1763,6 +1812,10 @@ def main():
     structs = struct_fields(extra)
     ENUMS.clear()
     ENUMS.update(enum_variants(extra))
+    for src in extra.values():
+        for m in re.finditer(r"#\[derive\(([^)]*)\)\]\s*(?:#\[[^\]]*\]\s*)*pub\s+struct\s+(\w+)", src):
+            if "Default" in [x.strip() for x in m.group(1).split(",")]:
+                DEFAULT_DERIVED.add(m.group(2))
     consts = const_types()
     defs, meta, failed = {}, {}, {}
     for coq_name, rel, impl, fn in LEAVES:
